@@ -201,6 +201,11 @@ def run(ctx):
             f2, o2 = flow.c02_rules(v, bs)
             f2 = [f for f in f2 if f.rule in ("C02.LOOP",) and any(n["kind"] == "Map::Iter" for n in bs.nexts)]
             res.add("C15.LOOP", sum(1 for n in bs.nexts if n["kind"] == "Map::Iter"), f2)
+            # the accumulator only grows: a member that resets it (or replaces it by a report that started from nothing) makes
+            # the reports of the members seen before it disappear - which members those are depends on the order
+            if any(n["kind"] == "Map::Iter" for n in bs.nexts):
+                f3, o3 = flow.acc_keep(v, bs, "C15.KEEP")
+                res.add("C15.KEEP", o3, f3)
             if len(res.samples) < 6 and any(n["kind"] == "Map::Iter" for n in bs.nexts) and role == "root":
                 res.samples.append({"body": b.path, "map_loops": sum(1 for n in bs.nexts if n["kind"] == "Map::Iter"),
                                     "verdict": "iterator only stepped; loop-carried state = accumulator, field states, iterator; field states not read in the loop"})
